@@ -162,6 +162,29 @@ def plain(name):
     return name != "" and not any(c in name for c in ",:*?[")
 
 
+def pattern_ok(p):
+    """a name pattern of the modelled glob language ('*', '?', literals) that is one item of an option list"""
+    return p != "" and not any(c in p for c in ",:[")
+
+
+def matching(pat, names):
+    """the names a glob pattern selects, in the given order (fnmatch semantics, re-implemented in glob_oracle)"""
+    if not pattern_ok(pat):
+        raise Silent("pattern outside the modelled glob language")
+    return [n for n in names if glob_oracle(pat, n)]
+
+
+def rename_by_pattern(old, new, name):
+    """rename_frame / rename_signal: 'old name or part of the name with * at the beginning or the end'"""
+    if old.endswith("*"):
+        pre = old[:-1]
+        return new + name[len(pre):] if name.startswith(pre) else name
+    if old.startswith("*"):
+        suf = old[1:]
+        return name[:len(name) - len(suf)] + new if name.endswith(suf) else name
+    return new if name == old else name
+
+
 def split_pairs(arg):
     out = []
     for item in arg.split(","):
@@ -188,15 +211,12 @@ def oracle_one(st, opt, arg, aux=None):
         if len(set(names)) != len(names):
             raise Silent("frame names are not unique: 'the frame called X' is not defined")
     if opt == "deleteEcu":
-        for n in arg.split(","):
-            if n == "":
+        for pat in arg.split(","):
+            if pat == "":
                 continue
-            if not plain(n):
-                raise Silent("pattern")
-            st["ecus"].pop(n, None) if n in st["ecus"] else None
-            if True:
-                # "delete Ecu from databases": the ECU and every reference to it; an ECU that is only referenced (not listed)
-                # cannot occur after a DBC import
+            # "delete Ecu from databases": every LISTED ECU the name / pattern selects, together with every reference to it
+            for n in matching(pat, list(st["ecus"])):
+                del st["ecus"][n]
                 for f in st["frames"].values():
                     f["transmitters"] = [t for t in f["transmitters"] if t != n]
                     f["receivers"] = [r for r in f["receivers"] if r != n]
@@ -221,35 +241,40 @@ def oracle_one(st, opt, arg, aux=None):
         drop_frames(st, lambda f: f["name"] in names)
     elif opt == "renameFrame":
         for old, new in split_pairs(arg):
-            if not plain(old) or not plain(new):
+            if old == "" or not plain(new) or "*" in old[1:-1] or old in ("*", "**") or "?" in old or "[" in old:
                 raise Silent("pattern")
-            if any(f["name"] == new for f in st["frames"].values()):
-                raise Silent("rename onto an existing frame")
+            if old.startswith("*") and old.endswith("*"):
+                raise Silent("pattern with two stars")
             for f in st["frames"].values():
-                if f["name"] == old:
-                    f["name"] = new
+                f["name"] = rename_by_pattern(old, new, f["name"])
+            names = [f["name"] for f in st["frames"].values()]
+            if len(set(names)) != len(names) or "" in names:
+                raise Silent("rename makes two frames share a name")
     elif opt == "renameSignal":
         for old, new in split_pairs(arg):
-            if not plain(old) or not plain(new):
+            if old == "" or not plain(new) or "*" in old[1:-1] or old in ("*", "**") or "?" in old or "[" in old:
                 raise Silent("pattern")
+            if old.startswith("*") and old.endswith("*"):
+                raise Silent("pattern with two stars")
             for f in st["frames"].values():
-                if old in f["signals"]:
-                    if new in f["signals"]:
-                        raise Silent("rename onto an existing signal")
-                    s = f["signals"][old]
-                    s["name"] = new
-                    f["signals"] = {(new if k == old else k): v for k, v in f["signals"].items()}
-                    f["signal_order"] = [new if k == old else k for k in f["signal_order"]]
-                    f["signal_groups"] = [(g, i, sorted(new if m == old else m for m in mem)) for g, i, mem in f["signal_groups"]]
-                    for t in f["signals"].values():
-                        if t["muxer_for_signal"] == old:
-                            raise Silent("renaming a multiplexer")
+                ren = {n: rename_by_pattern(old, new, n) for n in f["signal_order"]}
+                if all(k == v for k, v in ren.items()):
+                    continue
+                if len(set(ren.values())) != len(ren) or "" in ren.values():
+                    raise Silent("rename makes two signals of a frame share a name")
+                if any(t["muxer_for_signal"] in ren and ren[t["muxer_for_signal"]] != t["muxer_for_signal"] for t in f["signals"].values()):
+                    raise Silent("renaming a multiplexer")
+                for n, sg in f["signals"].items():
+                    sg["name"] = ren[n]
+                f["signals"] = {ren[k]: v for k, v in f["signals"].items()}
+                f["signal_order"] = [ren[k] for k in f["signal_order"]]
+                f["signal_groups"] = [(g, i, sorted(ren.get(m, m) for m in mem)) for g, i, mem in f["signal_groups"]]
     elif opt == "deleteSignal":
-        names = arg.split(",")
-        if any(n != "" and not plain(n) for n in names):
-            raise Silent("pattern")
+        pats = [n for n in arg.split(",") if n != ""]
+        if not all(pattern_ok(n) for n in pats):
+            raise Silent("pattern outside the modelled glob language")
         for f in st["frames"].values():
-            drop_signals(f, lambda s: s["name"] in names)
+            drop_signals(f, lambda s: any(glob_oracle(n, s["name"]) for n in pats))
     elif opt == "deleteZeroSignals":
         for f in st["frames"].values():
             drop_signals(f, lambda s: s["size"] == 0)
@@ -397,23 +422,22 @@ def oracle_select(st, opt, arg, aux):
         wanted = []
         for item in arg.split(","):
             p = item.split(":")
-            if len(p) > 2 or not plain(p[0]):
+            if len(p) > 2:
                 raise Silent("malformed")
             direction = p[1] if len(p) == 2 else None
-            e = p[0]
-            wanted.append(e)
-            if e not in src["ecus"]:
-                continue
-            if e not in tgt["ecus"]:
-                tgt["ecus"][e] = copy.deepcopy(src["ecus"][e])
-            if direction != "rx":
-                for f in frames_in_order(src):
-                    if e in f["transmitters"]:
-                        add_frame_copy(tgt, f, src)
-            if direction != "tx":
-                for f in frames_in_order(src):
-                    if any(e in s["receivers"] for s in f["signals"].values()):
-                        add_frame_copy(tgt, f, src)
+            # a name or a pattern: every ECU of the source it selects is requested, in the order the source lists them
+            for e in matching(p[0], list(src["ecus"])):
+                wanted.append(e)
+                if e not in tgt["ecus"]:
+                    tgt["ecus"][e] = copy.deepcopy(src["ecus"][e])
+                if direction != "rx":
+                    for f in frames_in_order(src):
+                        if e in f["transmitters"]:
+                            add_frame_copy(tgt, f, src)
+                if direction != "tx":
+                    for f in frames_in_order(src):
+                        if any(e in s["receivers"] for s in f["signals"].values()):
+                            add_frame_copy(tgt, f, src)
         # "lite ECU extract": besides the requested ECUs only the senders of the extracted frames stay; the other ECUs
         # disappear together with their entries in receiver lists
         keep = set(wanted) | {t for f in tgt["frames"].values() for t in f["transmitters"]}
@@ -456,20 +480,18 @@ def oracle_select(st, opt, arg, aux):
                     tgt["env_vars"].setdefault(k, copy.deepcopy(v))
             for part in parts[1:]:
                 kv = part.split("=")
-                if len(kv) != 2 or kv[0] not in ("ecu", "frame") or not plain(kv[1]):
+                if len(kv) != 2 or kv[0] not in ("ecu", "frame") or not pattern_ok(kv[1]):
                     raise Silent("merge sub-option")
                 if kv[0] == "ecu":
-                    e = kv[1]
-                    if e not in other["ecus"]:
-                        continue
-                    if e not in tgt["ecus"]:
-                        tgt["ecus"][e] = copy.deepcopy(other["ecus"][e])
-                    for f in frames_in_order(other):
-                        if e in f["transmitters"]:
-                            add_frame_copy(tgt, f, other)
-                    for f in frames_in_order(other):
-                        if any(e in sg["receivers"] for sg in f["signals"].values()):
-                            add_frame_copy(tgt, f, other)
+                    for e in matching(kv[1], list(other["ecus"])):
+                        if e not in tgt["ecus"]:
+                            tgt["ecus"][e] = copy.deepcopy(other["ecus"][e])
+                        for f in frames_in_order(other):
+                            if e in f["transmitters"]:
+                                add_frame_copy(tgt, f, other)
+                        for f in frames_in_order(other):
+                            if any(e in sg["receivers"] for sg in f["signals"].values()):
+                                add_frame_copy(tgt, f, other)
                 else:
                     for f in frames_in_order(other):
                         if f["name"] == kv[1]:
@@ -625,6 +647,14 @@ def add_interaction_frames(rng, C, db):
     sh = C.Frame("FShortDecl", arbitration_id=C.ArbitrationId(c, False), size=2)
     sh.add_transmitter(rcv)
     sh.add_signal(sig("SShA", 16, 8))
+    # ECU names with a common prefix: EGwFront sends FZeroEnd and receives, EGwRear only receives, EGwSpare is listed only
+    for n in ("EGwFront", "EGwRear", "EGwSpare"):
+        db.add_ecu(C.Ecu(n))
+    db.ecus[-2].add_comment("rear gateway")
+    ze.transmitters[:] = ["EGwFront"]
+    gap.signals[1].add_receiver("EGwRear")
+    gap.signals[1].add_receiver("EGwFront")
+    sh.signals[0].add_receiver("EGwRear")
     for f in (gap, ze, sh):
         f.update_receiver()
         db.add_frame(f)
@@ -857,6 +887,25 @@ def single_cases(rng, st, other_path=None, other_st=None):
         add("deleteSignalAttributes", ",".join(sa[:2]), "list")
     add("deleteSignalAttributes", "NoSuchAttr", "missing")
     add("deleteObsoleteDefines", "", "switch")
+    # ---- names that are patterns: '*' any run, '?' one character; matching none, one and several objects
+    for a in ("EGw*", "EGwR*", "EGw?ear", "E*Only", "ENo*", "*", "EGwR*:rx", "EGw*:rx", "EGw*:tx", "EGw*:rx,EGwFront:tx",
+              "EGwR*," + E[0], E[0] + ":tx,EGw*"):
+        add("ecus", a, "pattern")
+    for a in ("EGw*", "EGwR*", "EGw?ear", "E*Only", "ENo*", "EGwS*," + E[0]):
+        add("deleteEcu", a, "pattern")
+    for a in ("SGap*", "SGap?", "SZero*", "S*End", "SNo*", "SGap?,SZeA"):
+        add("deleteSignal", a, "pattern")
+    for a in ("FGap*:ENewRcv", "F?eroEnd:ENewRcv", "FNo*:ENewRcv", "F*:EGwSpare"):
+        add("addFrameReceiver", a, "pattern")
+    for a in ("FGap*", "FNo*", "F???Frame"):
+        add("compressFrame", a, "pattern")
+    for a in ("FGap*:FX", "*End:Fin", "FNo*:FX", F[0] + "*:FPre", "*NoSuchEnd:X"):
+        add("renameFrame", a, "pattern")
+    for a in ("SGap*:SG", "*End:Fin", "SZero*:SZ", "SNo*:SX", "SGap*:SG,*A:Alpha"):
+        add("renameSignal", a, "pattern")
+    if other_path and other_st:
+        for a in ("EGw*", "EGwR*", "ENo*", "E*Only"):
+            add("merge", other_path + ":ecu=" + a, "merge-ecu-pattern")
     if other_path and other_st:
         add("merge", other_path, "file")
         OF = [f["name"] for f in frames_in_order(other_st)]
@@ -1325,7 +1374,7 @@ def _run(chk, rng, thorough, ok, C, R, tmp):
             for c in cases:
                 k = (c[0], c[2])
                 seen[k] = seen.get(k, 0) + 1
-                if seen[k] <= (2 if c[0] in ("skipLongDlc", "cutLongFrames") else 1):
+                if seen[k] <= (2 if c[0] in ("skipLongDlc", "cutLongFrames") else 1) or "pattern" in c[2]:
                     keep.append(c)
             cases = keep
         for n, (opt, arg, tag) in enumerate(cases):
